@@ -50,7 +50,7 @@ def versionSSL : Nat := 80877103
 
 def endOf : Tail → End
   | .wait => .waiting
-  | .rerr => .closed
+  | _ => .closed
 
 /-- `readClientParameters`: key/value pairs up to an empty key; `none` on a missing NUL.
     The map is represented with `store` (last value wins). -/
@@ -116,6 +116,31 @@ def writeRaw (s : Sess) : Sess × Bool :=
   | some (n + 1) => ({ s with wleft := some n }, true)
   | none => (s, true)
 
+/-- `handleAuth` (auth.go): `none` = the connection is authenticated and serving goes on;
+    `some e` = the connection ends here (`closed`) or the server waits for the password message -/
+def authPhase (cfg : Config) (h : Handlers) (s : Sess) (db user : Bytes) : Sess × Option End :=
+  if !cfg.auth then
+    (match s.send (.auth 0) with | (s, true) => (s, none) | (s, false) => (s, some .closed))
+  else match s.send (.auth 3) with
+    | (s, false) => (s, some .closed)
+    | (s, true) =>
+      match s.inp.next with
+      | (.blocked, i) => ({ s with inp := i }, some .waiting)
+      | (.rerr, i) => ({ s with inp := i }, some .closed)
+      | (.item (.big _ _ _), i) => ({ s with inp := i }, some .closed)
+      | (.item (.msg t pwbody), i) =>
+        let s : Sess := { s with inp := i }
+        if t ≠ ch 'p' then (s, some .closed)
+        else match cstr pwbody with
+          | none => (s, some .closed)
+          | some (pw, r) =>
+            let s := (s.setMsg r).log (.validate db user pw)
+            match h.validate db user pw with
+            | .fail => (s, some .closed)
+            | .reject => ((sendError s (some errInvalidPassword)).1, some .closed)
+            | .accept =>
+              (match s.send (.auth 0) with | (s, true) => (s, none) | (s, false) => (s, some .closed))
+
 /-- everything after the protocol version has been read: `body` is the rest of the startup
     packet, `rest` the stream behind it -/
 def serveAfterVersion (cfg : Config) (h : Handlers) (s0 : Sess) (body rest : Bytes)
@@ -125,32 +150,13 @@ def serveAfterVersion (cfg : Config) (h : Handlers) (s0 : Sess) (body rest : Byt
   | none => finish s0 .closed [] [] stuffed
   | some cp =>
     let cps := sortParams cp
-    let s : Sess := { s0 with inp := { s0.inp with items := deframe s0.inp.L rest } }
+    let tail := match s0.inp.tail with
+      | .eof _ => Tail.eof (!(leftover s0.inp.L rest).isEmpty)
+      | t => t
+    let s : Sess := { s0 with inp := { s0.inp with items := deframe s0.inp.L rest, tail := tail } }
     let user := (lookup (ascii "user") cp).getD []
     let db := (lookup (ascii "database") cp).getD []
-    -- handleAuth
-    let authed : Sess × Option End :=
-      if !cfg.auth then
-        (match s.send (.auth 0) with | (s, true) => (s, none) | (s, false) => (s, some .closed))
-      else match s.send (.auth 3) with
-        | (s, false) => (s, some .closed)
-        | (s, true) =>
-          match s.inp.next with
-          | (.blocked, i) => ({ s with inp := i }, some .waiting)
-          | (.rerr, i) => ({ s with inp := i }, some .closed)
-          | (.item (.big _ _ _), i) => ({ s with inp := i }, some .closed)
-          | (.item (.msg t pwbody), i) =>
-            let s : Sess := { s with inp := i }
-            if t ≠ ch 'p' then (s, some .closed)
-            else match cstr pwbody with
-              | none => (s, some .closed)
-              | some (pw, r) =>
-                let s := (s.setMsg r).log (.validate db user pw)
-                match h.validate db user pw with
-                | .fail => (s, some .closed)
-                | .reject => ((sendError s (some errInvalidPassword)).1, some .closed)
-                | .accept =>
-                  (match s.send (.auth 0) with | (s, true) => (s, none) | (s, false) => (s, some .closed))
+    let authed := authPhase cfg h s db user
     match authed with
     | (s, some e) => finish s e cps [] stuffed
     | (s, none) =>
